@@ -258,8 +258,8 @@ class Histogram1D(ObjectWithBinning, HistogramBase):
         # Masked arrays or item list or ...
         return self.__class__(
             self._binning.as_static(copy=False)[index],
-            self.frequencies[index],
-            self.errors2[index],
+            self.frequencies[index].copy(),  # a slice would be a view of our contents
+            self.errors2[index].copy(),
             overflow=overflow,
             keep_missed=keep_missed,
             underflow=underflow,
